@@ -122,6 +122,28 @@ pub fn rxset_two_members() {
     }
 }
 
+/// io::Error packs the OS error code into pointer bits; CBMC does not constant-fold through that representation
+/// and `kind()` on a fresh EINTR error forks over every ErrorKind (the harness ran out of memory).  Under Kani
+/// `io::Error::kind` is therefore answered from the model's errno: the value every io::Error::last_os_error()
+/// of these scripts was built from.
+#[cfg(kani)]
+pub fn io_kind_stub(_e: &std::io::Error) -> std::io::ErrorKind {
+    if env::errno() == libc::EINTR {
+        std::io::ErrorKind::Interrupted
+    } else if env::errno() == libc::EAGAIN {
+        std::io::ErrorKind::WouldBlock
+    } else {
+        std::io::ErrorKind::Other
+    }
+}
+#[cfg_attr(kani, kani::proof)]
+#[cfg_attr(kani, kani::unwind(14))]
+#[cfg_attr(kani, kani::stub(alloc::fmt::format, crate::util::fmt_stub))]
+#[cfg_attr(kani, kani::stub(std::io::Error::kind, crate::h_set::io_kind_stub))]
+pub fn rxset_one_member_eintr() {
+    one_member(true)
+}
+
 /// The set is deliberately NOT dropped (see rxset_two_members); `left` = the epoll descriptor + members still in it.
 fn set_end(set: OsIpcReceiverSet, left: usize) {
     core::mem::forget(set);
@@ -305,6 +327,74 @@ fn add_queued_two() {
     set_end(set, 3);
 }
 
+/// a member is removed (its channel closed), then a new one is added: its id differs from the live member's
+fn id_after_close() {
+    setup(64);
+    env::set_block_is_violation(true);
+    let (s1, r1) = raw_pair();
+    let (s2, r2) = raw_pair();
+    let mut set = OsIpcReceiverSet::new().unwrap();
+    let id1 = set.add(rx_from_fd(r1)).unwrap();
+    let id2 = set.add(rx_from_fd(r2)).unwrap();
+    raw_close(s1);
+    let mut g = Got::new();
+    take(set.select().unwrap(), &mut g);
+    assert!(g.nd == 0 && g.nc == 1 && g.c[0] == id1, "C06: exactly one closed event, for the disconnected member only");
+    // two more join (ids handed out after a removal must not walk over the id of a member that is still in)
+    let (s3, r3) = raw_pair();
+    let id3 = set.add(rx_from_fd(r3)).unwrap();
+    let (s4, r4) = raw_pair();
+    let id4 = set.add(rx_from_fd(r4)).unwrap();
+    assert!(id3 != id2 && id4 != id2 && id4 != id3, "C06: two members that are in the set at the same time share an id");
+    let v: u8 = kani::any();
+    assert!(inject(s4, Some(1), &[v], &[]) > 0);
+    let mut g = Got::new();
+    take(set.select().unwrap(), &mut g);
+    assert!(g.nc == 0 && g.nd == 1 && g.d[0] == (id4, v, 1), "C06: message tagged with the id add returned for its member");
+    raw_close(s2);
+    raw_close(s3);
+    raw_close(s4);
+    set_end(set, 4);
+}
+
+/// a backlog of 65 messages on one member before the wait (more than any per-wake-up batch a
+/// "fairness" cap would allow): edge-triggered polling announces it once, so one select must drain it all;
+/// then the closure.  Needs the `bigq` configuration of the model (70 packets in flight).
+#[cfg(any(not(kani), feature = "bigq"))]
+#[cfg_attr(kani, kani::proof)]
+#[cfg_attr(kani, kani::unwind(70))]
+#[cfg_attr(kani, kani::stub(alloc::fmt::format, crate::util::fmt_stub))]
+pub fn rxset_backlog_65() {
+    const N: usize = 65;
+    setup(64);
+    env::set_block_is_violation(true);
+    let (s1, r1) = raw_pair();
+    let mut set = OsIpcReceiverSet::new().unwrap();
+    let id1 = set.add(rx_from_fd(r1)).unwrap();
+    let last: u8 = kani::any();
+    let mut i = 0;
+    while i < N {
+        assert!(inject(s1, Some(1), &[if i == N - 1 { last } else { i as u8 }], &[]) > 0);
+        i += 1;
+    }
+    raw_close(s1);
+    let res = core::mem::ManuallyDrop::new(set.select().unwrap());
+    // everything that was pending, and the closure after it, in one pass or two
+    let n1 = res.len();
+    assert!(n1 == N || n1 == N + 1, "C06: a backlog announced once (edge-triggered) must be drained completely");
+    match &res[N - 1] {
+        OsIpcSelectionResult::DataReceived(id, d, _, _) => assert!(*id == id1 && d.len() == 1 && d[0] == last, "C06: last message of the backlog (id, contents, order)"),
+        OsIpcSelectionResult::ChannelClosed(_) => assert!(false, "C06: closed event before the member's last message"),
+    }
+    if n1 == N {
+        let res2 = core::mem::ManuallyDrop::new(set.select().unwrap());
+        assert!(res2.len() == 1 && matches!(&res2[0], OsIpcSelectionResult::ChannelClosed(i) if *i == id1), "C06: exactly one closed event after the last message");
+    } else {
+        assert!(matches!(&res[N], OsIpcSelectionResult::ChannelClosed(i) if *i == id1), "C06: exactly one closed event after the last message");
+    }
+    set_end(set, 1);
+}
+
 /// C12 through a set, WITH a surviving sender handle of the crashed member's channel
 fn crash_select_surv() {
     setup(64);
@@ -369,11 +459,11 @@ harnesses! {
     #[unwind(14)] fn rxset_three_ready_then_add() { three_ready_then_add() }
     #[unwind(14)] fn rxset_crash_after_1_surv() { crash_select_surv() }
     #[unwind(14)] fn rxset_ipc() { ipc_set() }
+    #[unwind(14)] fn rxset_id_after_close() { id_after_close() }
     #[unwind(14)] fn rxset_two_multi() { two_multi() }
     #[unwind(14)] fn rxset_closed_then_other() { closed_then_other() }
     #[unwind(14)] fn rxset_add_queued_two() { add_queued_two() }
     #[unwind(14)] fn rxset_one_member() { one_member(false) }
-    #[unwind(14)] fn rxset_one_member_eintr() { one_member(true) }
     #[unwind(14)] fn rxset_crash_after_1() { crash_select(1) }
     #[unwind(14)] fn rxset_crash_after_2() { crash_select(2) }
 }
@@ -382,6 +472,12 @@ harnesses! {
 pub fn lookup2(name: &str) -> Option<fn()> {
     if name == "rxset_two_members" {
         return Some(rxset_two_members as fn());
+    }
+    if name == "rxset_backlog_65" {
+        return Some(rxset_backlog_65 as fn());
+    }
+    if name == "rxset_one_member_eintr" {
+        return Some(rxset_one_member_eintr as fn());
     }
     lookup(name)
 }
